@@ -335,7 +335,9 @@ pub fn generate(prop: &str, seed: u64) -> Scenario {
     if matches!(prop, "C01" | "C02" | "C03" | "C04" | "C07" | "C13") && !scn.src.is_collection() && scn.src != Src::IterEndless {
         let mut r = Rng::stream(seed, 0x1A46E);
         let ok_term = !matches!(scn.term, Term::ForEach);
-        if r.chance(1, 120) && ok_term && scn.pre == 0 {
+        // (C13 looks at the merge and drop paths of long results: three times as often, mostly collecting)
+        let one_in = if prop == "C13" { 40 } else { 120 };
+        if r.chance(1, one_in) && ok_term && scn.pre == 0 {
             let n = r.range(1100, 6000);
             scn.vals = spec_vals(n, r.below(64) as u64);
             scn.quiet = r.range(4, 6) as u8;
@@ -343,8 +345,29 @@ pub fn generate(prop: &str, seed: u64) -> Scenario {
                 scn.src = Src::Vec;
             }
             if r.chance(2, 3) {
-                let c = *r.pick(&[1025usize, 1500, 2048, 3000, 4096]);
+                let c = *r.pick(&[16usize, 64, 1025, 1500, 2048, 3000, 4096]);
                 scn.cs = vec![(0, if r.chance(1, 2) { Chunk::Exact(c) } else { Chunk::Min(c) })];
+            }
+            // long runs are where a stalled worker matters: one thread holds an early chunk while the others
+            // take the rest
+            match r.below(10) {
+                0..=3 => {
+                    scn.policy = Policy::Starve(r.below(3) as u8);
+                    scn.starve_release = 0;
+                    scn.noise = 0;
+                }
+                4..=5 => {
+                    scn.policy = Policy::Sticky(90);
+                    scn.noise = 0;
+                }
+                _ => {}
+            }
+            if prop == "C13" && r.chance(2, 3) {
+                scn.term = match r.below(3) {
+                    0 => Term::CollectVec,
+                    1 => Term::CollectInto(gen_target(&mut r, 8, false)),
+                    _ => Term::CollectX,
+                };
             }
             match &scn.term {
                 Term::Find(_) | Term::Any(_) | Term::All(_) | Term::FindWithIndex(_) => {
